@@ -3,6 +3,7 @@
 package parser
 
 import (
+	"fmt"
 	"ti/context"
 	"ti/lexer/reader"
 )
@@ -21,7 +22,7 @@ var (
 	VerifReadBudget int
 	// VerifOnFatal, when set, receives every diagnostic handed to Parser.Fatal
 	// in every round (the binary itself keeps only the check round).
-	VerifOnFatal func(file string, row int, round string, msg string)
+	VerifOnFatal func(file string, row int, round string, msg string, parserID string)
 )
 
 func VerifReset(budget int) {
@@ -39,6 +40,7 @@ func verifTick(p *Parser) {
 
 func verifFatal(p *Parser, ctx context.Context, err error) {
 	if VerifOnFatal != nil && err != nil {
-		VerifOnFatal(p.FileName, p.ErrorRow, ctx.GetRound(), err.Error())
+		// the address tells the pass's own parser from the by-value copies used for lookahead
+		VerifOnFatal(p.FileName, p.ErrorRow, ctx.GetRound(), err.Error(), fmt.Sprintf("%p", p))
 	}
 }
